@@ -144,10 +144,17 @@ def execute(sc, ctx):
                 posn = "only"
             targets.append((hr, os.path.join(hr, "ascmhl", name), "manifest", posn))
         targets.append((hr, os.path.join(hr, "ascmhl", "ascmhl_chain.xml"), "chain", "-"))
+        targets.append((hr, os.path.join(hr, "ascmhl"), "folder", "-"))
     triples = []
     for hr, path, kind, posn in targets:
         # command roots: any history root that is an ancestor-or-self of the damaged history
         cmd_roots = [r for r in hist_roots if hr == r or hr.startswith(r + os.sep)]
+        if kind == "folder":
+            # multi-fault: the chain file AND every manifest removed, the ascmhl directory itself stays
+            for c in COMMANDS:
+                for r in cmd_roots:
+                    triples.append((hr, path, kind, posn, "empty_folder", 0, c, r))
+            continue
         data = observe.read_bytes(path)
         if kind == "chain":
             edits = [("remove", 0)]
@@ -189,12 +196,20 @@ def execute(sc, ctx):
             continue
         if c == "info-sf" and observe.deepest_history_for(top_file, hist_roots) != r:
             continue
-        data = observe.read_bytes(path)
-        st = os.lstat(path)
-        changed = _apply_edit(path, data, e, pos)
+        if kind == "folder":
+            saved = {n: (observe.read_bytes(os.path.join(path, n)), os.lstat(os.path.join(path, n)).st_mtime_ns) for n in core.R_listdir(path)}
+            st = os.lstat(path)
+            for n in saved:
+                os.remove(os.path.join(path, n))
+            data = None
+            changed = True
+        else:
+            data = observe.read_bytes(path)
+            st = os.lstat(path)
+            changed = _apply_edit(path, data, e, pos)
         if not changed:
             continue
-        keep_mtime = e != "remove" and core.h64(sc["triple_seed"], "km", os.path.relpath(path, w.base), e, pos, c) % 2 == 0
+        keep_mtime = e not in ("remove", "empty_folder") and core.h64(sc["triple_seed"], "km", os.path.relpath(path, w.base), e, pos, c) % 2 == 0
         if keep_mtime:
             # the damaged file keeps its old modification time and the folder's too
             os.utime(path, ns=(st.st_mtime_ns, st.st_mtime_ns))
@@ -205,12 +220,12 @@ def execute(sc, ctx):
         after = core.snapshot(w.sandbox)
         ctx.evaluations += 1
         ctx.steps += 1
-        ctx.fault(("remove_chain" if kind == "chain" else "remove_manifest") if e == "remove" else "tamper_" + e)
+        ctx.fault("empty_ascmhl_folder" if kind == "folder" else ("remove_chain" if kind == "chain" else "remove_manifest") if e == "remove" else "tamper_" + e)
         ctx.nontrivial = True
         depth = os.path.relpath(hr, r).count(os.sep) + (0 if hr == r else 1)
         ctx.state(e, c, depth, posn, kind, keep_mtime)
         ctx.note("triple", os.path.relpath(path, w.base), e, pos, c, os.path.relpath(r, w.base), res.outcome)
-        want = 32 if kind == "chain" else 33 if e == "remove" else 31
+        want = 32 if kind in ("chain", "folder") else 33 if e == "remove" else 31
         pin = {"triples": [[os.path.relpath(path, w.base), e, pos, c, os.path.relpath(r, w.base)]]}
         desc = f"{os.path.relpath(path, w.base)} {e}@{pos}; {[a.replace(w.base, '<B>') for a in argv]} -> {res.brief()}"
         if res.outcome != ("exit", want):
@@ -227,6 +242,13 @@ def execute(sc, ctx):
                         desc + f" added {a[:3]} removed {rm[:3]} changed {ch[:3]}", pin=pin)
             return
         # restore
+        if kind == "folder":
+            for n, (b, mt) in saved.items():
+                with core.R_open(os.path.join(path, n), "wb") as f:
+                    f.write(b)
+                os.utime(os.path.join(path, n), ns=(mt, mt))
+            os.utime(path, ns=(st.st_mtime_ns, st.st_mtime_ns))
+            continue
         with core.R_open(path, "wb") as f:
             f.write(data)
         os.utime(path, ns=(st.st_mtime_ns, st.st_mtime_ns))
